@@ -130,7 +130,11 @@ func Finish(res *Result, verifDir, tier string, seed int, start time.Time, known
 			knownSet[e.Rule+" "+e.Construct] = e
 		}
 	}
-	replayDir := filepath.Join(verifDir, "evidence", "replay")
+	evDir := "evidence"
+	if strings.HasPrefix(res.Property, "X") {
+		evDir = "exploration" // exploration aids (XLOCKS, XRELAY) are not properties: keep them out of evidence/
+	}
+	replayDir := filepath.Join(verifDir, evDir, "replay")
 	_ = os.MkdirAll(replayDir, 0o755)
 	// clear old replay files of this property
 	if old, _ := filepath.Glob(filepath.Join(replayDir, res.Property+"-*.json")); old != nil {
@@ -238,8 +242,8 @@ func Finish(res *Result, verifDir, tier string, seed int, start time.Time, known
 		"violations":  out.Violations,
 	}
 	eb, _ := json.MarshalIndent(ev, "", " ")
-	_ = os.MkdirAll(filepath.Join(verifDir, "evidence"), 0o755)
-	if err := os.WriteFile(filepath.Join(verifDir, "evidence", res.Property+".json"), eb, 0o644); err != nil {
+	_ = os.MkdirAll(filepath.Join(verifDir, evDir), 0o755)
+	if err := os.WriteFile(filepath.Join(verifDir, evDir, res.Property+".json"), eb, 0o644); err != nil {
 		fmt.Println("cannot write evidence:", err)
 		return 2
 	}
